@@ -2728,6 +2728,22 @@ def _flag_selects_value_only(ctx, f, call: ast.Call, arg: ast.Name, depth: int) 
     return True
 
 
+def _import_only_hook(ctx, call: ast.Call) -> bool:
+    """`backend.hook(..)` where every definition of `hook` in the backend class family consists of add_import(..) calls only"""
+    if not isinstance(call.func, ast.Attribute):
+        return False
+    base = ctx.repo.get_class(BASE, "BaseBackend")
+    defs = [k.methods[call.func.attr] for k in [base] + list(ctx.repo.subclasses(base, strict=True)) if call.func.attr in k.methods]
+    if not defs:
+        return False
+    for g in defs:
+        body = [b for b in g.node.body if not (isinstance(b, ast.Expr) and isinstance(b.value, ast.Constant))]
+        if not body or not all(isinstance(b, ast.Pass) or (isinstance(b, ast.Expr) and isinstance(b.value, ast.Call)
+                                                             and call_name(b.value) == "add_import") for b in body):
+            return False
+    return True
+
+
 class _IdDict(dict):
     pass
 
@@ -2888,6 +2904,8 @@ def r4_sparse_confined(ctx, rid):
                 continue
             if isinstance(st, ast.Expr) and isinstance(st.value, ast.Call) and call_name(st.value) == "add_import":
                 continue
+            if isinstance(st, ast.Expr) and isinstance(st.value, ast.Call) and _import_only_hook(ctx, st.value):
+                continue        # a backend hook that does nothing but declare imports
             bad.append(norm(st))
         # loops enclosing the guard: an early exit under the guard makes the rest of the loop body depend on the flag
         if bad:
